@@ -561,7 +561,7 @@ def handle(types, line):
     op, idx, rest = (line.split(" ", 2) + ["", ""])[:3]
     t = types[int(idx)]
     cls = get_cls(t["cls"])
-    salt = zlib.crc32(line.encode())
+    salt = zlib.crc32((op + " " + rest).encode())       # not the type index: a replay renumbers the types
 
     def ser_answer():
         return "ok " + (do_ser(t, rest).hex() or "-")
